@@ -74,6 +74,26 @@ static bool WriteFileMode(const std::string& p, const std::string& c, bool atomi
   return true;
 }
 
+// "\0" -> NUL, "\e" -> ESC, "\n" -> newline (argv cannot carry NUL; keeps manifests printable)
+static std::string Unescape(const std::string& in) {
+  std::string r;
+  for (size_t i = 0; i < in.size(); ++i) {
+    if (in[i] == '\\' && i + 1 < in.size() && (in[i + 1] == '0' || in[i + 1] == 'e' || in[i + 1] == 'n')) {
+      r.push_back(in[i + 1] == '0' ? '\0' : in[i + 1] == 'e' ? '\x1b' : '\n');
+      ++i;
+    } else r.push_back(in[i]);
+  }
+  return r;
+}
+
+static std::string Unhex(const std::string& h) {
+  std::string r;
+  if (h == "-") return r;
+  auto v = [](char c) { return c <= '9' ? c - '0' : c - 'a' + 10; };
+  for (size_t i = 0; i + 1 < h.size(); i += 2) r += (char)(v(h[i]) * 16 + v(h[i + 1]));
+  return r;
+}
+
 int main(int argc, char** argv) {
   std::vector<std::string> reads, outs, says, says_err, dd_for;
   std::string key, depfile, rsp, wait_for, announce, fail_if_exists, pidfile;
@@ -106,8 +126,10 @@ int main(int argc, char** argv) {
     else if (a == "--fail-if-exists") { fail_if_exists = next(); cur = nullptr; }
     else if (a == "--kill-self") { kill_self = atoi(next().c_str()); cur = nullptr; }
     else if (a == "--pidfile") { pidfile = next(); cur = nullptr; }
-    else if (a == "--say") { says.push_back(next()); cur = nullptr; }
-    else if (a == "--say-err") { says_err.push_back(next()); cur = nullptr; }
+    else if (a == "--say-hex") { says.push_back(Unhex(next())); cur = nullptr; }
+    else if (a == "--say-err-hex") { says_err.push_back(Unhex(next())); cur = nullptr; }
+    else if (a == "--say") { says.push_back(Unescape(next())); cur = nullptr; }
+    else if (a == "--say-err") { says_err.push_back(Unescape(next())); cur = nullptr; }
     else if (a == "--dyndep-for") { cur = &dd_for; }
     else if (cur) cur->push_back(a);
   }
